@@ -30,12 +30,19 @@ Definition res_eqb (a b : res ast) : bool :=
 Definition check_parse (c : string * res ast) : bool := res_eqb (get_ast (fst c)) (snd c).
 
 (* cell table as an association list; (table, cell whose geometry is converted, expected) *)
-Definition lookup (tbl : list (N * cell)) (n : N) : option cell :=
-  match find (fun p => N.eqb (fst p) n) tbl with Some p => Some (snd p) | None => None end.
-
 Definition check_complement (c : list (N * cell) * ast * res ast) : bool :=
   let '(tbl, a, expected) := c in
   res_eqb (pot_complement 64 (lookup tbl) a) expected.
+
+(* the whole loop: (table in dictionary order, expected final geometries or the exception) *)
+Definition geoms (tbl : table) : list (N * ast) := map (fun p => (fst p, c_geom (snd p))) tbl.
+
+Definition check_loop (c : list (N * cell) * res (list (N * ast))) : bool :=
+  match eliminate_all 64 (fst c), snd c with
+  | Ok t, Ok expected => list_eqb (pair_eqb N.eqb ast_eqb) (geoms t) expected
+  | Err x, Err y => err_eqb x y
+  | _, _ => false
+  end.
 
 (* ---- exhaustive tie by bucketed fingerprints ----
    The harness enumerates every string over [alpha] up to a length, runs the
